@@ -111,9 +111,17 @@ var failSeeds = []string{
 
 // recursive helpers with no computable output context.
 var failRecursive = []string{
+	`{{if .C}}{{template "·" .W}}{{end}}{{.F}}<a title="`,
+	`{{with .W}}{{template "·" .}}{{end}}<div title='{{.F}}`,
+	`<p {{if .C}}{{template "·" .W}}{{end}}`,
 	`{{if .C}}<a href="{{template "·" .W}}{{end}}`,
 	`<p title="{{if .C}}{{template "·" .W}}"{{end}}>`,
 	`{{if .C}}{{template "·" .W}}<b{{end}}`,
+}
+
+// closers bring a context left open by a callee back to text.
+var closers = []string{
+	`">x</a>`, `'>x</div>`, `x">y</p>`, `>x</p>`, ` title="t">x</p>`, `-->`, `</script>`, `</style>`, `</textarea>`, `</title>`, `"></script>`, `=x>y`,
 }
 
 var helperValueBodies = []string{
@@ -313,6 +321,11 @@ func (g *gen) genSet(nHelpers, nTops, nBad int, extras bool) {
 			cn := fmt.Sprintf("T%d", len(g.tops))
 			g.tops = append(g.tops, cn)
 			w := g.pick([]string{`<p>·</p>`, `·`, `<div title="·">x</div>`, `<a href="/p?q=·">l</a>`, `<p>·</p>`})
+			if g.chance(0.5) {
+				// a caller that closes whatever the callee may have left open
+				// (legitimate when the callee merely ends in a non-text context)
+				w = "·" + g.pick(closers)
+			}
 			g.define(cn, g.probe()+strings.Replace(w, "·", fmt.Sprintf(`{{template %q .}}`, name), 1)+g.fragment(true))
 		}
 	}
